@@ -95,13 +95,15 @@ def strip_coq_comments_line(line):
     return line
 
 
-def coq_make(targets=None, timeout=3000):
-    """(Re)generate the Makefile and build the given .vo targets (or everything)."""
-    rc, out = sh("coq_makefile -f _CoqProject -o Makefile", cwd=COQ)
+def coq_make(targets=None, timeout=3000, tag="all"):
+    """Build the given .vo targets (or everything) with a per-check Makefile (Makefile.<tag>)."""
+    coq_project_sync()
+    mk = "Makefile." + tag
+    rc, out = sh("coq_makefile -f _CoqProject -o %s" % mk, cwd=COQ)
     if rc != 0:
         return False, out
     tgt = " ".join(targets) if targets else ""
-    rc, out = sh("timeout %d make -j%d %s" % (timeout, NPROC, tgt), cwd=COQ, timeout=timeout + 60)
+    rc, out = sh("timeout %d make -f %s -j%d %s" % (timeout, mk, NPROC, tgt), cwd=COQ, timeout=timeout + 60)
     return rc == 0, out
 
 
@@ -130,13 +132,31 @@ def count_obligations(files):
     return stated, closed, names
 
 
-_pv_built = False
+_pv_built = set()
 
 
-def build_pvmodel(force=False):
-    """Rebuild the extracted model iff the compiled Coq inputs changed."""
-    global _pv_built
-    if _pv_built and not force:
+def coq_project_sync():
+    """_CoqProject lists every .v under coq/ except the extraction scripts; regenerate the Makefile
+    only when that list changes (several checks may run at once)."""
+    files = []
+    for root, _, fs in os.walk(COQ):
+        for f in fs:
+            if f.endswith(".v") and not (os.path.basename(root) == "Extract" and f.startswith("Extract")):
+                files.append(os.path.relpath(os.path.join(root, f), COQ))
+    files.sort()
+    text = "-Q . PV\n-arg -w -arg -notation-overridden,-deprecated-hint-without-locality,-deprecated-instance-without-locality,-abstract-large-number\n" + "\n".join(files) + "\n"
+    p = os.path.join(COQ, "_CoqProject")
+    if not os.path.exists(p) or open(p).read() != text:
+        tmp = p + ".%d" % os.getpid()
+        open(tmp, "w").write(text)
+        os.replace(tmp, p)
+        return True
+    return False
+
+
+def build_pvmodel(name="main", force=False):
+    """Rebuild an extracted model binary iff the Coq sources changed. name: see ocaml/build.sh."""
+    if name in _pv_built and not force:
         return True, ""
     h = hashlib.sha256()
     for root, _, files in sorted(os.walk(COQ)):
@@ -144,15 +164,17 @@ def build_pvmodel(force=False):
             if f.endswith(".v"):
                 h.update(open(os.path.join(root, f), "rb").read())
     h.update(open(os.path.join(OCAML, "driver.ml"), "rb").read())
-    stamp = os.path.join(OCAML, "_build", "stamp")
+    h.update(open(os.path.join(OCAML, "build.sh"), "rb").read())
+    binary = PVMODEL if name == "main" else os.path.join(OCAML, "pv_" + name)
+    stamp = os.path.join(OCAML, "_build", name + ".stamp")
     digest = h.hexdigest()
-    if not force and os.path.exists(PVMODEL) and os.path.exists(stamp) and open(stamp).read() == digest:
-        _pv_built = True
+    if not force and os.path.exists(binary) and os.path.exists(stamp) and open(stamp).read() == digest:
+        _pv_built.add(name)
         return True, ""
-    rc, out = sh("timeout 900 ./build.sh", cwd=OCAML, timeout=1000)
+    rc, out = sh("timeout 900 ./build.sh %s" % name, cwd=OCAML, timeout=1000)
     if rc == 0:
         open(stamp, "w").write(digest)
-        _pv_built = True
+        _pv_built.add(name)
     return rc == 0, out
 
 
@@ -275,11 +297,12 @@ def parse_sx(text):
 class Model:
     """A running pvmodel process: ask(request-sexp-text) -> parsed response."""
 
-    def __init__(self):
-        ok, out = build_pvmodel()
+    def __init__(self, name="main"):
+        ok, out = build_pvmodel(name)
         if not ok:
             raise RuntimeError("pvmodel build failed:\n" + out[-3000:])
-        self.p = subprocess.Popen([PVMODEL], stdin=subprocess.PIPE, stdout=subprocess.PIPE, text=True, encoding="latin-1", bufsize=1)
+        binary = PVMODEL if name == "main" else os.path.join(OCAML, "pv_" + name)
+        self.p = subprocess.Popen([binary], stdin=subprocess.PIPE, stdout=subprocess.PIPE, text=True, encoding="latin-1", bufsize=1)
         self.n = 0
 
     def ask_raw(self, req):
@@ -380,8 +403,8 @@ class Check:
         self.coverage["forbidden_scan"] = "clean" if not bad else bad
         targets = [f[:-2] + ".vo" for f in proof_files] + list(extra_targets)
         t = time.time()
-        ok, log = coq_make(targets)
-        self.coverage["checker_cmd"] = "cd /verif/coq && coq_makefile -f _CoqProject -o Makefile && make -j%d %s && coqc -Q . PV %s" % (NPROC, " ".join(targets), prop_file)
+        ok, log = coq_make(targets, tag=self.pid)
+        self.coverage["checker_cmd"] = "cd /verif/coq && coq_makefile -f _CoqProject -o Makefile.%s && make -f Makefile.%s -j%d %s && coqc -Q . PV %s" % (self.pid, self.pid, NPROC, " ".join(targets), prop_file)
         self.proof_log = log
         okp, thms, assum, plog = (False, [], "", "")
         if ok and not bad:
@@ -484,10 +507,16 @@ def run_main(main):
 
 
 def load_known_findings():
-    p = os.path.join(VERIF, "known_findings.json")
-    if not os.path.exists(p):
-        return []
-    return json.load(open(p)).get("findings", [])
+    """known_findings.json plus fragments known_findings.d/*.json (same format)."""
+    out = []
+    paths = [os.path.join(VERIF, "known_findings.json")]
+    d = os.path.join(VERIF, "known_findings.d")
+    if os.path.isdir(d):
+        paths += [os.path.join(d, f) for f in sorted(os.listdir(d)) if f.endswith(".json")]
+    for p in paths:
+        if os.path.exists(p):
+            out += json.load(open(p)).get("findings", [])
+    return out
 
 
 def parse_args(argv):
